@@ -798,6 +798,81 @@ fn run_server_history(cx: &mut CaseCx, case: &Value) {
   cx.outcome(format!("t={}", t));
 }
 
+
+/// the aggregation side is independent of WHERE the clients' shared randomness came from and of the shape of
+/// their associated data: groups built from locally derived randomness, from the randomness server and from a
+/// fixed 32-byte value, each with long, pairwise different associated data (several cipher blocks), in one batch
+fn run_aggregation_sources(cx: &mut CaseCx, case: &Value) {
+  use star_test_utils::AggregationServer;
+  let t = case["t"].as_u64().unwrap() as u32;
+  let epoch = "epoch";
+  cx.entropy(21);
+  let server = pp::Server::new(vec![0, 1, 7]).expect("server");
+  let sources: Vec<(&str, Vec<u8>, [u8; 32])> = {
+    let mut v = vec![];
+    let m1 = b"measurement with local randomness".to_vec();
+    v.push(("locally derived randomness", m1.clone(), local_randomness(&m1, epoch.as_bytes(), t)));
+    let m2 = b"measurement with server randomness".to_vec();
+    match guard(|| server_randomness(&server, 1, &m2)) {
+      Ok(Ok(r)) => v.push(("randomness from the randomness server", m2, r)),
+      _ => {}
+    }
+    v.push(("a fixed 32-byte value shared by the clients", b"measurement with fixed randomness".to_vec(), [0x5au8; 32]));
+    v
+  };
+  let mut msgs: Vec<Message> = vec![];
+  let mut want: Vec<(Vec<u8>, Vec<Option<Vec<u8>>>, &str)> = vec![];
+  for (gi, (name, m, rnd)) in sources.iter().enumerate() {
+    let mut auxs = vec![];
+    for k in 0..(t as usize + 1) {
+      getrandom::verif::set_group((gi * 10 + k) as u32 + 1);
+      // long associated data, different for every client: 600, 170 and 0 bytes in rotation
+      let aux = match k % 3 {
+        0 => Some(prbytes(0xA000 + (gi * 10 + k) as u64, 600)),
+        1 => Some(prbytes(0xB000 + (gi * 10 + k) as u64, 170)),
+        _ => None,
+      };
+      match gen_report(m, epoch.as_bytes(), t, rnd, &aux) {
+        Ok(r) => msgs.push(r),
+        Err(e) => {
+          cx.viol("C01/generate-failed", e, json!({"source": name}));
+          return;
+        }
+      }
+      auxs.push(aux);
+    }
+    auxs.sort();
+    want.push((m.clone(), auxs, name));
+  }
+  let agg = AggregationServer::new(t, epoch);
+  cx.eval();
+  cx.count("states", 1);
+  cx.count("transitions", 1);
+  cx.nontrivial(t as u64);
+  let out = match guard(|| agg.retrieve_outputs(&msgs)) {
+    Ok(o) => o,
+    Err(p) => {
+      cx.viol("C01/aggregation-sources/server-panicked", p, json!({"t": t}));
+      return;
+    }
+  };
+  for (m, auxs, name) in &want {
+    let found: Vec<_> = out.iter().filter(|o| o.x.as_vec() == *m).collect();
+    if found.len() != 1 {
+      cx.viol("C01/aggregation-sources/not-revealed", format!("a measurement reported by t+1 = {} clients whose shared randomness is {} is revealed {} times by the reference aggregation side", t + 1, name, found.len()), json!({"t": t, "randomness_source": name}));
+      return;
+    }
+    let mut got: Vec<Option<Vec<u8>>> = found[0].aux.iter().map(|a| a.as_ref().map(|d| d.as_vec()).filter(|v| !v.is_empty())).collect();
+    got.sort();
+    if got != *auxs {
+      cx.viol("C01/aggregation-sources/associated-data-wrong", format!("the measurement whose clients used {} is revealed with other associated data than its clients attached (600-, 170- and 0-byte data, different for every client): lengths {:?} instead of {:?}", name, got.iter().map(|a| a.as_ref().map(|v| v.len())).collect::<Vec<_>>(), auxs.iter().map(|a| a.as_ref().map(|v| v.len())).collect::<Vec<_>>()), json!({"t": t, "randomness_source": name}));
+      return;
+    }
+    cx.count("source_groups_revealed", 1);
+  }
+  cx.outcome(format!("t={}", t));
+}
+
 /// boundary search on the tag: measurements whose tag has a 0x00 / 0xff first or last byte, aggregated by the
 /// reference aggregation server (the "aggregation side" of the repository) - they must be revealed like any other
 fn run_boundary_tags(cx: &mut CaseCx, case: &Value) {
@@ -1059,6 +1134,13 @@ pub fn spec() -> PropSpec {
         },
         run: run_server_history,
         min_counts: &[("ok_recoveries", 50)],
+      },
+      Check {
+        name: "aggregation-sources",
+        rule: "the reference aggregation side over one batch of three groups (t in {1,2,3}; t+1 clients each) whose shared randomness is locally derived / obtained from the randomness server / a fixed 32-byte value, every client with different associated data of 600, 170 or 0 bytes (several cipher blocks): every group revealed once with exactly its clients' associated data",
+        gen: |_| [1u64, 2, 3].iter().map(|t| json!({"t": t})).collect(),
+        run: run_aggregation_sources,
+        min_counts: &[("source_groups_revealed", 9)],
       },
       Check {
         name: "boundary-tags",
